@@ -11,9 +11,9 @@ LEVEL = "exploration"
 RULE = ("(1) every runtime block of ET/DT/ES (both Modbus framings; ES blocks of every announced length 0..255) filled all-zero, "
         "all-0xFF, sentinel mixes, mixed and random is decoded by the real Inverter._map_response: the result must hold every id "
         "and nothing but ValueError may be raised by any Sensor.read; (2) every schedule / eco-mode / timestamp setting is fed ALL "
-        "65536 contents of each of its 16-bit fields (others: a valid base pattern and random) through read_value; (3) end-to-end "
+        "65536 contents of each of its 16-bit fields (others: a valid base pattern and random) through read_value - every fifth also by a fresh object, undecodable contents a second time by the same object (the verdict depends on the bytes only); (3) end-to-end "
         "read_runtime_data() (all families) and read_settings_data() (ET, ES) plus single read_setting()/read_sensor() calls "
-        "against simulated inverters with generated register contents; distinct = distinct (family, block or setting, content "
+        "against simulated inverters with generated register contents (bulk settings read twice, single setting registers refused, battery dropping out between polls); distinct = distinct (family, block or setting, content "
         "style / field index, outcome class) tuples")
 ASSUMPTIONS = ["DT.read_settings_data() is outside the property's wording (it names ET and ES for the bulk settings read)",
                "a key may map to None; the key set must contain every id of the covered sensors/settings"]
